@@ -33,9 +33,9 @@ Lemmas ==
 A_ws  == {32, 9, 65, 10}
 A_hdr == {42, 58, 63, 65, 49, 95, 32}
 A_chr == {65, 49, 95, 32}
-A_dec == {49, 43, 46, 69, 32, 65}
+A_dec == {49, 43, 46, 69, 32, 65, 197}
 A_suf == {47, 65, 45, 49, 46, 32}
-A_ndc == {35, 72, 81, 66, 49, 50, 55, 56, 57, 65, 71, 0}
+A_ndc == {35, 72, 81, 66, 49, 50, 55, 56, 57, 65, 71, 0, 200, 209}
 A_str == {34, 39, 65, 128}
 A_blk == {35, 48, 49, 50, 65}
 A_exp == {40, 41, 65, 34, 10}
